@@ -35,7 +35,7 @@ PROPS = {
                  "fromTo_excludes), is not the server's own, and is in the enabled dynamic range unless it is the static address of that hardware "
                  "address; static_only blocks everything else (handed_out_allowed, static_only_blocks_dynamic, ranges_fixed) — Lean theorems over all "
                  "interleavings; correspondence and yiaddr-vs-configuration monitor as for C01.",
-        "props": ["C02"],
+        "props": ["C02", "C11Code"],
         "streams": [{"test": "TestSrvSeq", "names": ["srvseq"], "timeout": 300}, {"test": "TestCfgNew", "names": ["cfgnew"], "timeout": 300}],
         "rule": "as C01 (configurations enumerate range positions, statics inside/outside the range, static_only; suggestions drawn from {in range, "
                 "below/above range, network/broadcast address, server address, other network, 0.0.0.0, a static, the host's last offer}) plus the "
@@ -79,7 +79,7 @@ PROPS = {
                  "honoured (suggestion_honoured) and silence on a DISCOVER means every pool address was examined and found bound, .0/.255 or in "
                  "conflict (silent_only_if_exhausted) — Lean theorems over all event lists; correspondence as C01 with gaps around hold and lease "
                  "times and a monitor that tracks every client's running grants from the tapped frames.",
-        "props": ["C05"],
+        "props": ["C05", "C11Code"],
         "streams": [{"test": "TestSrvSeq", "names": ["srvseq"], "timeout": 300}, {"test": "TestIpdb", "names": ["ipdb"], "timeout": 300}],
         "rule": "as C01 (gaps hold-2 s, hold+2 s, lease/2, lease-3 s, lease+3 s, 3*lease; re-DISCOVERs by bound clients; retransmitted REQUESTs; other "
                 "hosts in between; pools down to one address) plus the IPDB stream at database level; non-trivial = the server answered",
@@ -93,7 +93,7 @@ PROPS = {
                  "verifying (lease_reply_wire, nak_reply_wire, composed from the C12/C13 round trips); at most one reply per handler "
                  "(at_most_one_reply, done_is_final) — Lean theorems; byte-exact comparison of every frame in all server streams and an independent "
                  "decoder as monitor.",
-        "props": ["C06"],
+        "props": ["C06", "C13Code"],
         "streams": [{"test": "TestSrvSeq", "names": ["srvseq"], "timeout": 300}, {"test": "TestReqMatrix", "names": ["reqmatrix"], "timeout": 300}],
         "rule": "every reply frame of the C01 scripts and of the request matrix (xid, all 16 flag bits in 5% of the messages, hardware-address lengths "
                 "0..16, pads, trailing bytes); non-trivial = answered",
@@ -161,7 +161,7 @@ PROPS = {
                  "without it (junk_interleaving); the client side is C14's catch_never_panics / ignored_have_no_effect — Lean theorems; junk frames "
                  "through the real Run loop inside server scripts, mutated and random bytes through the real decoders and the real catchReply, with "
                  "recover() turning a panic into a reported case.",
-        "props": ["C10", "C14"],
+        "props": ["C10", "C14", "C13Code", "C12Code"],
         "streams": [{"test": "TestSrvSeq", "names": ["srvseq"], "timeout": 300}, {"test": "TestWire", "names": ["wire"], "timeout": 300}, {"test": "TestDhcp", "names": ["dhcp"], "timeout": 300},
                     {"test": "TestCliCatch", "names": ["clicatch"], "timeout": 300}, {"test": "TestCliAuto", "names": ["cliauto"], "timeout": 300}],
         "rule": "structure-aware mutations of valid frames (length fields, IHL incl. short packets with large IHL, truncation anywhere, option bytes, hlen "
@@ -176,7 +176,7 @@ PROPS = {
                  "binding per address and per client (clients_refine, ipdb_refine, table_exclusive), plus the iff-characterisations of update and "
                  "the FindIP postconditions — Lean theorems for all histories; tied to the code by exhaustive small-scope and random differential "
                  "runs of the real clients/ipdb packages under a virtual clock.",
-        "props": ["C11"],
+        "props": ["C11", "C11Code"],
         "streams": [{"test": "TestClients", "names": ["clients"], "timeout": 600}, {"test": "TestIpdb", "names": ["ipdb"], "timeout": 600}],
         "rule": "Clients API: ALL operation sequences up to length 3 (quick; 4 thorough, depth 4 over a reduced alphabet) over 2 addresses x 2 clients x "
                 "lifetimes {-1,+1,+5} x clock steps {0,2} (72 symbols), DFS with shared prefixes; random sequences up to length 200 over 3 addresses x "
@@ -227,7 +227,7 @@ PROPS = {
                  "pattern of its state, ports 68->67, valid checksums, hardware address, derived client identifier (template_wire); retransmission "
                  "spacing >= 700 ms and non-decreasing for every random stream (retransmit_delays) — Lean theorems; byte-exact correspondence with "
                  "msgtmpl and observed schedules of the real sendMessage under a virtual clock.",
-        "props": ["C16"],
+        "props": ["C16", "C13Code"],
         "streams": [{"test": "TestCliTmpl", "names": ["clitmpl"], "timeout": 600}],
         "rule": "random hardware addresses (1..16 bytes), offered/server addresses incl. 0.0.0.0 and broadcast, all four states, two transmissions per "
                 "exchange; real sendMessage runs of 10 s .. 45 min virtual time whose inter-frame gaps are checked against the model's admissible "
@@ -303,7 +303,7 @@ PROPS = {
                  "option-area grammar, typed accessors exact, no out-of-range access — Lean theorems over all byte strings/messages; tied to the Go "
                  "code by byte-exact differential correspondence (exhaustive short option areas, structured, mutated, random) with an independent RFC "
                  "parser as monitor.",
-        "props": ["C12"],
+        "props": ["C12", "C12Code"],
         "streams": [{"test": "TestDhcp", "names": ["dhcp"], "timeout": 300}],
         "rule": "exhaustive option areas (length<=5 quick / <=7 thorough over {0,1,2,3,53,254,255}) appended to a fixed header, random structured "
                 "messages through Assemble and Decode, structure-aware mutations of valid frames, random bytes; a case is distinct by its "
@@ -316,7 +316,7 @@ PROPS = {
         "level": "IPv4/UDP/ARP: header and UDP checksums verify for every payload up to the datagram maximum (uint32 accumulator proved not to wrap), "
                  "length fields, decode∘assemble, decoder strictness and absence of out-of-range accesses — Lean theorems; byte-exact correspondence "
                  "with the Go codecs and an independent RFC 1071/768 monitor.",
-        "props": ["C13"],
+        "props": ["C13", "C13Code"],
         "streams": [{"test": "TestWire", "names": ["wire"], "timeout": 300}],
         "rule": "UDP-in-IPv4 assembly over payload lengths {0..64, 1471..1473, 65505..65507, beyond the maximum} x byte patterns "
                 "(zeros, 0xff, alternating, random) x address forms, decoders on mutated valid frames and random bytes, ARP round trips; "
